@@ -172,17 +172,17 @@ def _cond_true(conds, pred, cx=None, ev=None):
     if not hits:
         return False
     others = [g for g in conds if g not in hits]
-    if not all(g[1] is False for g in others):
-        return False
     if cx is not None and ev is not None:
-        # ... of an earlier *refusal*: a condition whose positive side merely returns early (a memo of values that passed
+        # ... of an earlier *refusal*: a condition whose other side merely returns early (a memo of values that passed
         # before, a shortcut) lets the documented refusal be skipped
         for g in others:
+            opposite = facts.canon_guard((g[0], not g[1]))
             pos = [r for r in cx.events if r.kind == "raise" and r.seq < ev.seq and any(
-                facts.canon_guard((h[0], h[1])) == facts.canon_guard((g[0], True)) for h in r.guards)]
+                facts.canon_guard((h[0], h[1])) == opposite for h in r.guards)]
             if not pos:
                 return False
-    return True
+        return True
+    return all(g[1] is False for g in others)
 
 
 def _is_disjunct_ok(g):
@@ -314,7 +314,7 @@ def r_add_refusals(model, rep):
     want = {
         "source-with-srpm": table(lambda a, b: a and not b),
         "binary-without-srpm": table(lambda a, b: (not a) and b),
-        "category-vs-rpm-arch": lambda t: (t[0] == "cmp" and t[1] == ("!=",) and t[2][0] == src and t[2][1][0] == "cmp"
+        "category-vs-rpm-arch": lambda t: (t[0] == "cmp" and t[1] in (("!=",), ("==",)) and t[2][0] == src and t[2][1][0] == "cmp"
                                            and t[2][1][1] == ("in",) and t[2][1][2][0][0] == "sub"
                                            and t[2][1][2][0][2] == ("const", "arch")
                                            and set(cx.try_const(t[2][1][2][1], ()) or ()) == {"src", "nosrc"}),
@@ -322,7 +322,8 @@ def r_add_refusals(model, rep):
     for label, pred in sorted(want.items()):
         hit = None
         for conds, ev in _raise_conditions(cx):
-            if _cond_true(conds, lambda t, pol: pol and pred(t)):
+            # (a refusal on ``a != b`` is the condition (a == b) not holding)
+            if _cond_true(conds, lambda t, pol: pred(t) and (pol != (t[0] == "cmp" and t[1] == ("==",) and label == "category-vs-rpm-arch")), cx, ev):
                 hit = ev
         rep.ob("R-ADD-REFUSALS", "rpms.Rpms.add:%s" % label, hit is not None, site=cx.site(hit.lineno if hit else f.node),
                msg="" if hit else "Rpms.add no longer refuses the inconsistent combination '%s'" % label)
